@@ -1,8 +1,11 @@
 #!/bin/bash
-# run_all.sh [tier]: every claimed property's check in sequence; prints one line per property
+# run_all.sh [tier]: every claimed property's check in sequence (or those in $PROPS); prints one line per property
 T=${1:-quick}
 cd "$(dirname "$0")/.."
-for P in $(python3 -c "import json; print(' '.join(c['property_id'] for c in json.load(open('MANIFEST.json'))['checks']))"); do
-  S=$(date +%s); ./check $P --tier $T > /tmp/runall_$P.out 2>&1; RC=$?; E=$(date +%s)
-  echo "$P exit=$RC $((E-S))s violations=$(grep -c '^VIOLATION' /tmp/runall_$P.out) known=$(grep -c '^KNOWN-FINDING' /tmp/runall_$P.out)"
+O=$(mktemp -d /tmp/runall.XXXX)
+ALL=$(python3 -c "import json; print(' '.join(c['property_id'] for c in json.load(open('MANIFEST.json'))['checks']))")
+for P in ${PROPS:-$ALL}; do
+  S=$(date +%s); ./check $P --tier $T > $O/$P.out 2>&1; RC=$?; E=$(date +%s)
+  echo "$P exit=$RC $((E-S))s violations=$(grep -c '^VIOLATION' $O/$P.out) known=$(grep -c '^KNOWN-FINDING' $O/$P.out)"
 done
+rm -rf $O
